@@ -74,6 +74,20 @@ Section UB.
     destruct (Hw _ _ _ _ Hs I bb Hb) as [Hg|Hg]; [exact Hg|]. apply fvt_var in Hg. simpl in Hne. congruence.
   Qed.
 
+  Lemma ub_guard : forall (w : cterm -> M cstmt) l G binders ty,
+    (forall cont st s st', w cont st = Ok (s, st') -> cont_cns cont ->
+       forall bb, In bb (fvs s) -> inG G l bb \/ In bb (fvt cont)) ->
+    forall cont st s st', guard_capture false binders w ty cont st = Ok (s, st') -> cont_cns cont ->
+    forall bb, In bb (fvs s) -> inG G l bb \/ In bb (fvt cont).
+  Proof.
+    intros w l G binders ty Hw cont st s st' H Hc bb Hb. apply guard_capture_inv in H.
+    destruct H as [[_ H]|[_ [ty0 [a [sta [s0 [Ety [Ha [_ [Hs Es]]]]]]]]]].
+    - eapply Hw; eauto.
+    - subst s. apply fvs_cut in Hb. destruct Hb as [Hb|Hb]; [|right; exact Hb].
+      apply fvt_mu_iff in Hb. destruct Hb as [Hb Hne].
+      destruct (Hw _ _ _ _ Hs I bb Hb) as [Hg|Hg]; [left; exact Hg|]. apply fvt_var in Hg. simpl in Hne. congruence.
+  Qed.
+
   Lemma ws_arg_not_cns : forall G y, match y with FVar _ _ (Some FCns) => False | _ => True end ->
     ws_arg G y = ws G y /\ arg_ok p y = (frag p y && is_some (fterm_type y)).
   Proof. intros G y H. destruct y; try (split; reflexivity). destruct chi as [[|]|]; try contradiction; split; reflexivity. Qed.
@@ -229,9 +243,11 @@ Section UB.
     - (* FLet *)
       destruct IHt1 as [W1 C1], IHt2 as [W2 _].
       assert (HW : ubw (FLet v vty t1 t2 ty)).
-      { intros G cont st s0 st' H0 Hf Hw Hc bb Hb. rewrite wc_unfold in H0. simpl in Hf, Hw.
+      { intros G cont0 st0 s00 st0' H00 Hf Hw Hc0. rewrite wc_unfold in H00. simpl in Hf, Hw.
         apply andb_prop in Hf. destruct Hf as [Hf1 Hf2].
         apply andb_prop in Hw. destruct Hw as [Hw1 Hw2].
+        revert cont0 st0 s00 st0' H00 Hc0. apply ub_guard.
+        intros cont st s0 st' H0 Hc bb Hb.
         assert (Hbody : forall body st1, wc' t2 cont st = Ok (body, st1) ->
                   forall bb, In bb (fvt (CMu CCns (new_id v) body (compile_ty vty))) ->
                   inG G (nm (FLet v vty t1 t2 ty)) bb \/ In bb (fvt cont)).
@@ -299,10 +315,12 @@ Section UB.
       assert (HB : Forall (fun c => ubw (clause_body c)) cls).
       { eapply Forall_impl; [|exact H]. intros a [Wa _]. exact Wa. }
       assert (HW : ubw (FCase t targs cls ty)).
-      { intros G cont st s0 st' H0 Hf Hw Hc bb Hb. rewrite wc_unfold in H0. apply wc_case_inv in H0.
-        destruct H0 as [cont1 [st0 [cls' [st1 [sty0 [Hsh [Hcls [Esty Hscrut]]]]]]]]. simpl in Hf, Hw.
+      { intros G cont0 st0 s00 st0' H00 Hf Hw Hc0. rewrite wc_unfold in H00. simpl in Hf, Hw.
         apply andb_prop in Hf. destruct Hf as [Hf1 Hf2]. apply andb_prop in Hf1. destruct Hf1 as [Hf1 _].
         apply andb_prop in Hw. destruct Hw as [Hw1 Hw2].
+        revert cont0 st0 s00 st0' H00 Hc0. apply ub_guard.
+        intros cont st s0 st' H0 Hc bb Hb. apply wc_case_inv in H0.
+        destruct H0 as [cont1 [st0 [cls' [st1 [sty0 [Hsh [Hcls [Esty Hscrut]]]]]]]].
         assert (Hc1 : cont_cns cont1 /\ forall bb, In bb (fvt cont1) -> In bb (fvt cont)).
         { destruct (Nat.leb (List.length cls) 1 || cont_is_small cont);
             [destruct Hsh; subst; auto | eapply share_fvt; eauto]. }
